@@ -419,6 +419,43 @@ def describe_decl(w, d):
     return 'set_perms_for(%s): perm(%s, groups=%s, roles=%s, labels=%s).exclude(%s)' % (
         ', '.join(w.ents[e].__name__ for e in d['ents']), d['perms'], d['groups'], d['roles'], d['labels'], ', '.join(ex))
 
+def shrink(w, decls, inputs, form, u, p, t):
+    """greedy minimisation of a has_perm-vs-spec disagreement: drop declarations, exclusions, names, provider answers"""
+    def bad(ds, inp):
+        set_inputs(inp, form); reset_rules(w); declare(w, ds)
+        real = real_warm(w, [(u, p, t)])[0]
+        return real != spec(w, ds, inp, u, p, t)
+    ds = [dict(d) for d in decls]; groups, roles, labels = [dict(x) for x in inputs]
+    changed = True
+    while changed:
+        changed = False
+        for i in range(len(ds)):
+            cand = ds[:i] + ds[i + 1:]
+            if bad(cand, (groups, roles, labels)): ds = cand; changed = True; break
+        if changed: continue
+        for i, d in enumerate(ds):
+            for f in ('excl', 'groups', 'roles', 'labels', 'ents', 'perms'):
+                for j in range(len(d[f])):
+                    if f in ('ents', 'perms') and len(d[f]) == 1: continue
+                    d2 = dict(d); d2[f] = d[f][:j] + d[f][j + 1:]
+                    cand = ds[:i] + [d2] + ds[i + 1:]
+                    if bad(cand, (groups, roles, labels)): ds = cand; changed = True; break
+                if changed: break
+            if changed: break
+        if changed: continue
+        for name, m in (('groups', groups), ('roles', roles), ('labels', labels)):
+            for k in list(m):
+                m2 = dict(m); del m2[k]
+                trial = {'groups': groups, 'roles': roles, 'labels': labels}; trial[name] = m2
+                if bad(ds, (trial['groups'], trial['roles'], trial['labels'])):
+                    if name == 'groups': groups = m2
+                    elif name == 'roles': roles = m2
+                    else: labels = m2
+                    changed = True; break
+            if changed: break
+    bad(decls, inputs)   # restore the caller's declarations
+    return ds, (groups, roles, labels)
+
 def check_case(ctx, w, c, outs):
     decls, inputs = c['decls'], c['inputs']
     inp = {'decls': [describe_decl(w, d) for d in decls], 'decls_raw': decls, 'inputs': jsonable_inputs(inputs), 'form': c['form']}
@@ -450,8 +487,16 @@ def check_case(ctx, w, c, outs):
         ctx.count('answer:%s:%s' % ('entity' if 'e' in t else 'attr' if 'a' in t else 'object', real))
         if real != exp:
             k = classify(w, decls, u, p, t, real, exp)
+            vinp = dict(inp, user=repr(u), perm=p, x=describe(w, t))
+            if k is None and ctx.extra.setdefault('shrunk', 0) < 5:
+                ctx.extra['shrunk'] += 1
+                d2, i2 = shrink(w, decls, inputs, c['form'], u, p, t)
+                k = classify(w, d2, u, p, t, real, exp)
+                vinp = {'decls': [describe_decl(w, d) for d in d2], 'decls_raw': d2, 'inputs': jsonable_inputs(i2), 'form': c['form'],
+                        'user': repr(u), 'perm': p, 'x': describe(w, t)}
+                k = k or 'spec:%s' % json.dumps([vinp['decls'], repr(u), p, describe(w, t), vinp['inputs']])
             ctx.violation('has_perm(%r, %r, %s) is %r but the declared rules %s it' % (u, p, describe(w, t), real, 'grant' if exp else 'do not grant'),
-                          dict(inp, user=repr(u), perm=p, x=describe(w, t)), observed=real, expected=exp,
+                          vinp, observed=real, expected=exp,
                           key=k or 'spec:%s' % json.dumps([inp['decls'], repr(u), p, describe(w, t), inp['inputs']]))
     # cold sessions
     for (u, p, t), real, mc in zip(c['cold_calls'], c['cold'], m2['cold']):
